@@ -1,6 +1,7 @@
 package ring
 
 import (
+	"os"
 	"context"
 	"fmt"
 	"sort"
@@ -132,6 +133,9 @@ type Cluster struct {
 	OnReply func(simnet.Call)
 }
 
+// debugging aid: VERIF_RPCLOG=1 records every failed RPC in the event log
+var rpcLogAll = os.Getenv("VERIF_RPCLOG") != ""
+
 func NewCluster(p *Plan) *Cluster {
 	c := &Cluster{Net: simnet.New(p.Net), Plan: p, Slots: make([]*NodeH, len(p.Nodes)), logger: zap.NewNop()}
 	c.Net.OnReply = func(call simnet.Call) {
@@ -148,6 +152,10 @@ func NewCluster(p *Plan) *Cluster {
 				}
 			}
 			simrt.Event("rpc %s %s->%s status=%d %s", call.Method, call.From, call.To, call.Status, body)
+		default:
+			if rpcLogAll && call.Status != 200 {
+				simrt.Event("rpc %s %s->%s status=%d %.160s", call.Method, call.From, call.To, call.Status, string(call.Body))
+			}
 		}
 	}
 	return c
